@@ -91,6 +91,7 @@ pub struct Recorder {
     pub nontrivial: std::collections::BTreeSet<u64>,
     pub dir: String,
     pub only_case: Option<u64>,
+    last_progress: Option<std::time::Instant>,
 }
 
 /// Number of cases completed so far and where to leave a note when a panic happens: if the code
@@ -154,6 +155,16 @@ impl Recorder {
             nontrivial: Default::default(),
             dir: dir.to_string(),
             only_case: only_case,
+            last_progress: None,
+        }
+    }
+    /// at most once a second: how far the run has come (read by bin/check when the run had to be
+    /// killed because it did not end, so that the report can name the case in progress)
+    fn note_progress(&mut self) {
+        let now = std::time::Instant::now();
+        if self.last_progress.map(|t| now.duration_since(t).as_millis() >= 1000).unwrap_or(true) {
+            self.last_progress = Some(now);
+            let _ = std::fs::write(format!("{}/progress.txt", self.dir), format!("case={}\n", self.n));
         }
     }
     pub fn count(&mut self, key: &str) {
@@ -172,6 +183,7 @@ impl Recorder {
     pub fn skip(&mut self) {
         self.n += 1;
         CASES_DONE.store(self.n, std::sync::atomic::Ordering::SeqCst);
+        self.note_progress();
     }
     /// One case: the request line for the model driver, the implementation's observation in the
     /// same rendering, the oracle's verdict on the implementation, and whether the case is
@@ -205,6 +217,7 @@ impl Recorder {
         }
         self.n += 1;
         CASES_DONE.store(self.n, std::sync::atomic::Ordering::SeqCst);
+        self.note_progress();
     }
     /// model-only case without oracle (pure correspondence)
     pub fn corr(&mut self, request: &str, observed: &str, nontrivial: Option<u64>) {
